@@ -538,12 +538,23 @@ pub fn replay_flow(case: &Value, rep: &mut Report) {
                 if distinct.len() >= 4 {
                     rep.count("cases_with_distinct_accumulation_outputs", 1);
                 }
-                for (acc, pv) in eval["predict"].as_object().unwrap() {
+                // frame condition of Network.tla: the loop accumulation is read only where a loop connection exists, the skip
+                // accumulation only where a skip connection exists -- so the setting that does NOT apply to this network is
+                // rotated through all five values (per case and accumulation), and nothing may change
+                const ALL_ACCS: [&str; 5] = ["add", "subtract", "multiply", "overwrite", "mean"];
+                let has_connect = case["steps"].as_array().unwrap().iter().any(|s| s["op"] == "connect" && s["outcome"] == "ok");
+                let has_loop = case["steps"].as_array().unwrap().iter().any(|s| s["op"] == "loopback" && s["outcome"] == "ok");
+                let salt = id.bytes().fold(0usize, |h, b| h.wrapping_mul(31).wrapping_add(b as usize));
+                let irrelevant = |k: usize| ALL_ACCS[(salt + k) % 5];
+                for (k, (acc, pv)) in eval["predict"].as_object().unwrap().iter().enumerate() {
                     if mode == "skip" {
-                        net.set_accumulation(nets::accumulation(acc), nets::accumulation("mean"));
+                        let other = if has_loop { "mean" } else { irrelevant(k) };
+                        net.set_accumulation(nets::accumulation(acc), nets::accumulation(other));
                     } else {
-                        net.set_accumulation(nets::accumulation("add"), nets::accumulation(acc));
+                        let other = if has_connect { "add" } else { irrelevant(k) };
+                        net.set_accumulation(nets::accumulation(other), nets::accumulation(acc));
                     }
+                    rep.count("evaluations_with_the_other_accumulation_rotated", 1);
                     rep.checks += 1;
                     match guarded(|| net.predict(&x)) {
                         Err(e) => rep.mismatch(prop, "predict_panicked", &id, json!({"panic": e, "accumulation": acc}), case),
@@ -555,7 +566,7 @@ pub fn replay_flow(case: &Value, rep: &mut Report) {
                     }
                 }
                 if mode == "skip" && bool_of(eval, "kinkfree") {
-                    net.set_accumulation(nets::accumulation("add"), nets::accumulation("mean"));
+                    net.set_accumulation(nets::accumulation("add"), nets::accumulation(if has_loop { "mean" } else { irrelevant(7) }));
                     let g = spec_value_tensor(&eval["g"]);
                     rep.checks += 1;
                     let res = guarded(|| {
@@ -588,8 +599,8 @@ pub fn replay_flow(case: &Value, rep: &mut Report) {
                 if mode == "loop" {
                     // the forward pass `learn` performs is the same function (no dropout here): with the gradient clamped to
                     // (0, 0) nothing is updated, and the training loss of one epoch on one sample is the loss of predict(x)
-                    for (acc, _) in eval["predict"].as_object().unwrap() {
-                        net.set_accumulation(nets::accumulation("add"), nets::accumulation(acc));
+                    for (k, (acc, _)) in eval["predict"].as_object().unwrap().iter().enumerate() {
+                        net.set_accumulation(nets::accumulation(if has_connect { "add" } else { irrelevant(k + 2) }), nets::accumulation(acc));
                         rep.checks += 1;
                         let r = guarded(|| {
                             let y = net.predict(&x);
@@ -649,7 +660,7 @@ pub fn replay_flow(case: &Value, rep: &mut Report) {
                             if acc == "multiply" {
                                 continue;
                             }
-                            n2.set_accumulation(nets::accumulation("add"), nets::accumulation(acc));
+                            n2.set_accumulation(nets::accumulation(if has_connect { "add" } else { irrelevant(3) }), nets::accumulation(acc));
                             rep.checks += 1;
                             if let Ok(y) = guarded(|| n2.predict(&xs)) {
                                 let den = pv["y"]["den"].as_i64().unwrap_or(1) as f32;
@@ -681,7 +692,7 @@ pub fn replay_flow(case: &Value, rep: &mut Report) {
                         }
                         unrolled.extend_from_slice(&layers[b + 1..]);
                         rep.checks += 1;
-                        net.set_accumulation(nets::accumulation("add"), nets::accumulation("overwrite"));
+                        net.set_accumulation(nets::accumulation(if has_connect { "add" } else { irrelevant(4) }), nets::accumulation("overwrite"));
                         match guarded(|| (build_flow_net(case, &unrolled).predict(&x), net.predict(&x))) {
                             Err(e) => rep.mismatch(prop, "unrolled_comparison_panicked", &id, json!({"panic": e}), case),
                             Ok((u, y)) => {
